@@ -45,6 +45,7 @@ class Subject:
         else:
             self.mc = MetadorContainer(DRIVERS[driver](self.d / "c", "w"))
         self.kept = {}  # path -> MetadorMeta handle kept alive across operations
+        self.keptnodes = {}  # path -> node wrapper kept alive across operations (its .meta is asked for anew every time)
         self.donor = None
 
     @property
@@ -53,6 +54,7 @@ class Subject:
 
     def boundary(self, kind):
         self.kept.clear()
+        self.keptnodes.clear()
         if kind == "commit":
             if self.driver != "h5":
                 self.raw.commit_patch()
@@ -78,6 +80,12 @@ class Subject:
             if path not in self.kept:
                 self.kept[path] = self.mc[path].meta
             return self.kept[path]
+        if via == "node":
+            # a node wrapper obtained earlier and kept: `.meta` of it is a fresh view of the node's metadata at every access,
+            # whatever happened through other wrappers of the same node in between
+            if path not in self.keptnodes:
+                self.keptnodes[path] = self.mc[path]
+            return self.keptnodes[path].meta
         return self.mc[path].meta
 
     def apply(self, op):
@@ -134,7 +142,7 @@ class Subject:
             return
         if k in ("meta", "delmeta", "badmeta"):
             self.kept.pop(op[1], None)
-            return
+            return  # (kept NODE wrappers stay: metadata changes through other wrappers must be visible through them)
         ps = [E.abspath("/", p) for p in (op[2:3] if k == "copyfrom" else op[1:3]) if isinstance(p, str)]
         if k == "at":  # operation through a sub-group handle: the paths it names (relative to the group, or absolute)
             ps = list(E.op_paths(op))
@@ -143,6 +151,9 @@ class Subject:
         for kp in list(self.kept):
             if any(E.is_sub(p, kp) or E.is_sub(kp, p) for p in ps):
                 del self.kept[kp]
+        for kp in list(self.keptnodes):
+            if any(E.is_sub(p, kp) or E.is_sub(kp, p) for p in ps):
+                del self.keptnodes[kp]
 
     def close(self):
         try:
@@ -318,7 +329,7 @@ class ContGen:
         nodes, groups = tree_paths(ref.f)
         r = rng.random()
         anyn = nodes + ["/"]
-        via = "kept" if rng.random() < 0.35 else "fresh"
+        via = rng.choice(["kept", "kept", "node", "fresh", "fresh", "fresh"])
         if r < 0.36 or not nodes:
             op = self.dg.next(ref.f)
             return op
@@ -413,10 +424,15 @@ def check_meta(sub: Subject, ref: Reference, rng, acc, sample=6):
     rng.shuffle(cands)
     for p in cands[:sample]:
         want = ref.shadow.get(p, {})
-        for how in ("fresh", "kept"):
+        if p not in sub.keptnodes and len(sub.keptnodes) < 12:
+            sub.keptnodes[p] = mc[p]
+            sub.keptnodes[p].meta  # (looked at once, long before it is asked again)
+        for how in ("fresh", "kept", "node"):
             if how == "kept" and p not in sub.kept:
                 continue
-            m = sub.kept[p] if how == "kept" else mc[p].meta
+            if how == "node" and p not in sub.keptnodes:
+                continue
+            m = sub.kept[p] if how == "kept" else sub.keptnodes[p].meta if how == "node" else mc[p].meta
             acc.count(f"meta_reads.{how}")
             if set(m.keys()) != set(want) or len(m) != len(want) or set(iter(m)) != set(want):
                 return "meta-keys", f"{p} ({how} handle): meta.keys() = {sorted(m.keys())}, attached {sorted(want)}"
